@@ -136,6 +136,8 @@ pub struct Renderer<'a, 'b> {
     /// splitting a member changes how many members the intersection has, which is not the rewrite being tested)
     inter_member: bool,
     direct_inter_member: bool,
+    /// (key, optional, printed type) of the object literal printed last (outermost call wins)
+    last_members: Vec<(String, bool, String)>,
 }
 
 fn reaches(env: &Env, from: usize, target: usize, seen: &mut Vec<bool>) -> bool {
@@ -199,6 +201,7 @@ impl<'a, 'b> Renderer<'a, 'b> {
             avoid: vec![],
             inter_member: false,
             direct_inter_member: false,
+            last_members: vec![],
         }
     }
 
@@ -533,34 +536,34 @@ impl<'a, 'b> Renderer<'a, 'b> {
             D::Union(ms) => self.union(ms, path),
             D::Inter(ms) => {
                 let mut parts = vec![];
+                let mut part_members: Vec<Option<Vec<(String, bool, String)>>> = vec![];
                 for (i, m) in ms.iter().enumerate() {
                     path.push(i);
                     self.inter_member = true;
+                    self.last_members = vec![];
                     let t = self.ty_at(m, path);
                     self.inter_member = false;
+                    part_members.push(if t.s.trim_start().starts_with('{') && t.s.trim_end().ends_with('}') && !t.s.contains("} & {") { Some(self.last_members.clone()) } else { None });
                     path.pop();
                     parts.push(need(t, Prec::Inter));
                 }
                 // does the compiler get to merge this intersection into one object type?  Only when every member is
                 // written as an object literal and no key is declared twice with different types or optionality;
                 // otherwise it stays an intersection of separately validated members
-                let all_inline = parts.iter().all(|t| t.trim_start().starts_with('{') && t.trim_end().ends_with('}') && !t.contains("} & {"));
+                // (a key declared by two members merges only if both declarations are spelled identically: `b: number`
+                // and `b: Id<number>` are different types to the compiler's syntactic merge)
+                let all_inline = part_members.iter().all(|p| p.is_some()) && ms.iter().all(|m| matches!(m, D::Object { index: None, .. }));
                 let mut mergeable = true;
-                let mut seen: Vec<&Prop> = vec![];
-                for m in ms {
-                    match m {
-                        D::Object { props, index: None } => {
-                            for p in props {
-                                if let Some(q) = seen.iter().find(|q| q.key == p.key) {
-                                    if **q != *p {
-                                        mergeable = false;
-                                    }
-                                } else {
-                                    seen.push(p);
-                                }
+                let mut seen: Vec<&(String, bool, String)> = vec![];
+                for pm in part_members.iter().flatten() {
+                    for p in pm {
+                        if let Some(q) = seen.iter().find(|q| q.0 == p.0) {
+                            if **q != *p {
+                                mergeable = false;
                             }
+                        } else {
+                            seen.push(p);
                         }
-                        _ => mergeable = false,
                     }
                 }
                 self.mark(if all_inline && mergeable { "inter_inline_mergeable" } else { "inter_unmerged_or_named" });
@@ -642,11 +645,13 @@ impl<'a, 'b> Renderer<'a, 'b> {
 
     fn members(&mut self, props: &[Prop], idxs: &[usize], path: &mut Vec<usize>) -> String {
         let mut items: Vec<String> = vec![];
+        let mut printed: Vec<(String, bool, String)> = vec![];
         for &i in idxs {
             let p = &props[i];
             path.push(i);
             let t = self.ty_at(&p.ty, path);
             path.pop();
+            printed.push((p.key.clone(), p.optional, t.s.clone()));
             let ro = if self.cfg.has(Feat::Syntax) && self.s.chance(1, 6) { "readonly " } else { "" };
             let doc = self.doc();
             let key = self.prop_key(&p.key);
@@ -660,6 +665,7 @@ impl<'a, 'b> Renderer<'a, 'b> {
             }
         }
         let sep = if self.cfg.has(Feat::Syntax) && self.s.chance(1, 3) { ", " } else { "; " };
+        self.last_members = printed;
         items.join(sep)
     }
 
